@@ -35,8 +35,8 @@ import (
 type c07Input struct {
 	Name   string `json:"name"`
 	Mode   string `json:"mode"`
-	Origin string `json:"origin"` // seed file or generator
-	Op     string `json:"op"`     // mutation operator(s)
+	Origin string `json:"origin"`          // seed file or generator
+	Op     string `json:"op"`              // mutation operator(s)
 	WdMs   int    `json:"wd_ms,omitempty"` // per-input watchdog override (deep nesting takes long to compile)
 	src    string
 	base   bool // unmutated corpus file
@@ -809,11 +809,11 @@ func TestC07(t *testing.T) {
 	br := &batchRunner{t: t, r: r, root: root, watchdog: envInt("VERIF_C07_WATCHDOG_MS", 4000)}
 
 	var (
-		resMu    sync.Mutex
+		resMu     sync.Mutex
 		cliCount  = map[string]int{}
 		slowSeeds = map[string]bool{}
-		cliIdx   int
-		sampled  int
+		cliIdx    int
+		sampled   int
 	)
 
 	record := func(dir string, results []c07Result) {
